@@ -48,6 +48,8 @@ struct screen_stepper : stepper
         reader head(parts[0]);
         t = std::make_unique<terminal>(ch, read_behaviour(head.num()));
         scr = std::make_unique<screen>(*t);
+        g_kept_ref = nullptr;
+        g_kept_owner = nullptr;
     }
     bool done() const override { return i >= parts.size(); }
     void step() override { screen_script_op(parts[i++], *t, *scr, cvs, ch, res); }
